@@ -361,7 +361,15 @@ func (r *ruleData) isWatchShaped() bool {
 	if len(r.strings) == 0 || !filepath.IsAbs(r.strings[0]) || filepath.Clean(r.strings[0]) != r.strings[0] {
 		return false
 	}
-	return len(r.fields) == 2 || r.fields[2] == keyField
+	if len(r.fields) == 2 {
+		return true
+	}
+	if r.fields[2] != keyField {
+		return false
+	}
+	// The -k flag splits its argument at commas, so a key that contains one
+	// can only be written as a filter.
+	return len(r.strings) < 2 || !strings.Contains(r.strings[1], ",")
 }
 
 func addFileWatch(data *ruleData, rule *FileWatchRule) error {
